@@ -26,93 +26,9 @@ using namespace c12;
 typedef backend::builtin<double> B;
 typedef mpi::distributed_matrix<B> DM;
 
-//---------------------------------------------------------------------------
-// Recording coarsening wrapper (an ordinary template argument of mpi::amg)
-//---------------------------------------------------------------------------
-struct LevelRec { Csr<double> A, P, R, Ac; long bad = 0; bool have_ac = false; };
-struct Recorder { bool on = false; std::vector<LevelRec> lv; } g_rec;
-enum { RT_A = 1, RT_P, RT_R, RT_AC };
-
-template <class Base> struct Rec {
-    typedef typename Base::params params; Base base;
-    Rec(const params &p = params()) : base(p) {}
-    std::tuple<std::shared_ptr<DM>, std::shared_ptr<DM>> transfer_operators(const DM &A) {
-        auto PR = base.transfer_operators(A);
-        if (g_rec.on) { auto &P = *std::get<0>(PR); auto &R = *std::get<1>(PR); Bag bag(world().comm);
-            vfm::bag_dm(bag, RT_A, A, A.loc_col_shift()); vfm::bag_dm(bag, RT_P, P, A.loc_col_shift()); vfm::bag_dm(bag, RT_R, R, P.loc_col_shift()); bag.collect();
-            LevelRec L; if (world().rank == 0) { GMat a = bag_to_csr(bag, RT_A, A.glob_rows(), A.glob_cols()), p = bag_to_csr(bag, RT_P, P.glob_rows(), P.glob_cols()), r = bag_to_csr(bag, RT_R, R.glob_rows(), R.glob_cols());
-                L.A = a.M; L.P = p.M; L.R = r.M; L.bad = a.dups + a.range + p.dups + p.range + r.dups + r.range; }
-            g_rec.lv.push_back(L); }
-        return PR;
-    }
-    std::shared_ptr<DM> coarse_operator(const DM &A, const DM &P, const DM &R) const {
-        auto Ac = base.coarse_operator(A, P, R);
-        if (g_rec.on && !g_rec.lv.empty()) { Bag bag(world().comm); vfm::bag_dm(bag, RT_AC, *Ac, Ac->loc_col_shift()); bag.collect();
-            if (world().rank == 0) { GMat a = bag_to_csr(bag, RT_AC, Ac->glob_rows(), Ac->glob_cols()); g_rec.lv.back().Ac = a.M; g_rec.lv.back().bad += a.dups + a.range; } g_rec.lv.back().have_ac = true; }
-        return Ac;
-    }
-};
-template <class Base> unsigned block_size(const Rec<Base> &r) { return block_size(r.base); }
-
 typedef runtime::mpi::coarsening::wrapper<B> RtC;
-typedef mpi::amg<B, Rec<RtC>, runtime::mpi::relaxation::wrapper<B>, runtime::mpi::direct::solver<double>, runtime::mpi::partition::wrapper<B>> AMG;
+typedef mpi::amg<B, Rec<RtC, B>, runtime::mpi::relaxation::wrapper<B>, runtime::mpi::direct::solver<double>, runtime::mpi::partition::wrapper<B>> AMG;
 typedef mpi::make_solver<AMG, runtime::mpi::solver::wrapper<B>> Solver;
-
-//---------------------------------------------------------------------------
-// Hierarchy oracles (rank 0)
-//---------------------------------------------------------------------------
-static bool same_matrix(const Csr<double> &X, const Csr<double> &Y) { return X.n == Y.n && X.m == Y.m && X.ptr == Y.ptr && X.col == Y.col && X.val == Y.val; }
-
-// A_c = s * R A P against the sparse long-double triple product; pattern = structural pattern
-static void check_galerkin(Case &c, const std::string &tag, const Csr<double> &A, const Csr<double> &P, const Csr<double> &R, const Csr<double> &Ac, double s) {
-    const long double u = 1.1102230246251565e-16L;
-    if (!c.check(P.n == A.n && R.m == A.n && R.n == P.m && Ac.n == P.m && Ac.m == P.m, "galerkin:shape:" + tag, "shapes of A, P, R, A_c do not fit", J().n("An", A.n).n("Pn", P.n).n("Pm", P.m).n("Rn", R.n).n("Rm", R.m).n("Acn", Ac.n))) return;
-    struct T { long double v = 0, a = 0; long cnt = 0; };
-    std::vector<std::map<long, T>> AP(A.n);
-    for (size_t i = 0; i < A.n; ++i) for (auto ja = A.ptr[i]; ja < A.ptr[i + 1]; ++ja) { auto k = A.col[ja]; for (auto jp = P.ptr[k]; jp < P.ptr[k + 1]; ++jp) { T &t = AP[i][P.col[jp]]; long double p = (long double)A.val[ja] * P.val[jp]; t.v += p; t.a += fabsl(p); t.cnt++; } }
-    bool pat = true, val = true; double worst = 0; long nent = 0;
-    for (size_t a = 0; a < R.n; ++a) { std::map<long, T> row;
-        for (auto jr = R.ptr[a]; jr < R.ptr[a + 1]; ++jr) for (auto &kv : AP[R.col[jr]]) { T &t = row[kv.first]; t.v += (long double)R.val[jr] * kv.second.v; t.a += fabsl(R.val[jr]) * kv.second.a; t.cnt += kv.second.cnt; }
-        if ((size_t)(Ac.ptr[a + 1] - Ac.ptr[a]) != row.size()) pat = false;
-        for (auto j = Ac.ptr[a]; j < Ac.ptr[a + 1]; ++j) { auto it = row.find(Ac.col[j]); if (it == row.end()) { pat = false; continue; } ++nent;
-            long double ref = s * it->second.v, bound = 2.0L * (it->second.cnt + 6) * u * fabsl(s) * it->second.a, d = fabsl((long double)Ac.val[j] - ref);
-            if (!(d <= bound)) val = false; if (it->second.a > 0) worst = std::max(worst, (double)(d / (fabsl(s) * it->second.a))); } }
-    c.check(pat, "galerkin:pattern:" + tag, "pattern of the distributed coarse matrix differs from the structural pattern of R A P");
-    c.check(val, "galerkin:value:" + tag, "distributed coarse matrix differs from s R A P beyond the forward rounding bound", J().n("scale", s).n("worst_rel", worst));
-    vf::obs_max("max_rel_galerkin_discrepancy", worst); vf::obs_sum("galerkin_entries_checked", (double)nent);
-}
-static void check_transpose(Case &c, const std::string &tag, const Csr<double> &P, const Csr<double> &R) { c.check(same_matrix(vf::transpose(P), R), "restriction-not-transpose:" + tag, "gathered R is not bit-identical to the transpose of the gathered P"); }
-
-// Global-partition clause for a tentative prolongation.  b: block size (dofs per point), K: near-null-space vectors (0: piecewise constant).
-// Strength of connection is evaluated from its definition on the assembled matrix; rows whose classification is within rounding of the threshold are skipped.
-struct PartStat { long nonisolated = 0, isolated = 0, ambiguous = 0, aggregates = 0; std::vector<long> agg_of_point; std::vector<long> agg_size; };
-static PartStat check_partition(Case &c, const std::string &tag, const Csr<double> &A, const Csr<double> &P, double eps, int b, int K) {
-    PartStat st; long n = A.n, np = n / b; int w = K ? K : b;      // columns per aggregate
-    // pointwise matrix: max |a_ij| over the block
-    std::vector<std::map<long, double>> Ap(np); for (long i = 0; i < n; ++i) for (auto j = A.ptr[i]; j < A.ptr[i + 1]; ++j) { double &v = Ap[i / b][A.col[j] / b]; v = std::max(v, std::fabs(A.val[j])); }
-    std::vector<int> cls(np, 0);   // 1 non-isolated, 0 isolated, -1 ambiguous
-    for (long I = 0; I < np; ++I) { double dI = Ap[I].count(I) ? Ap[I][I] : 0; bool strong = false, amb = false;
-        for (auto &kv : Ap[I]) { if (kv.first == I) continue; double dJ = Ap[kv.first].count(kv.first) ? Ap[kv.first][kv.first] : 0; double lhs = eps * eps * dI * dJ, rhs = kv.second * kv.second;
-            if (rhs > lhs * (1 + 1e-9)) strong = true; else if (rhs >= lhs * (1 - 1e-9)) amb = true; }
-        cls[I] = strong ? 1 : (amb ? -1 : 0); (strong ? st.nonisolated : (amb ? st.ambiguous : st.isolated))++; }
-    bool shape = (long)P.n == n && P.m % w == 0; if (!c.check(shape, "partition:shape:" + tag, "tentative prolongation has the wrong shape", J().n("rows", P.n).n("cols", P.m).n("n", n))) return st;
-    long nagg = P.m / w; st.aggregates = nagg; st.agg_of_point.assign(np, -1); st.agg_size.assign(nagg, 0);
-    bool one = true, dofs = true, unit = true; long bad_row = -1;
-    for (long I = 0; I < np; ++I) { long agg = -2;
-        for (int k = 0; k < b; ++k) { long i = I * b + k; long cnt = P.ptr[i + 1] - P.ptr[i]; long a = -1;
-            if (cnt == 0) a = -1;
-            else if (K == 0) { if (cnt != 1) { one = false; bad_row = i; continue; } long col = P.col[P.ptr[i]]; a = col / b; if (col % b != k) dofs = false; if (P.val[P.ptr[i]] != 1.0) unit = false; }
-            else { if (cnt != K) { one = false; bad_row = i; continue; } a = P.col[P.ptr[i]] / K; for (int q = 0; q < K; ++q) if (P.col[P.ptr[i] + q] != a * K + q) { one = false; bad_row = i; } }
-            if (agg == -2) agg = a; else if (agg != a) dofs = false; }
-        if (cls[I] == 1 && agg < 0) { one = false; bad_row = I * b; }
-        st.agg_of_point[I] = agg; if (agg >= 0 && agg < nagg) st.agg_size[agg]++; }
-    c.check(one, "partition:not-exactly-one-aggregate:" + tag, "a non-isolated unknown is in no aggregate, or a row of the tentative prolongation addresses more than one aggregate", J().n("row", bad_row).n("block_size", b).n("nullspace_cols", K));
-    c.check(dofs, "partition:dofs-of-a-point-split:" + tag, "the unknowns of one point are mapped to different aggregates or to the wrong component", J().n("block_size", b));
-    if (K == 0) c.check(unit, "partition:entry-not-one:" + tag, "piecewise-constant tentative prolongation has an entry different from 1");
-    long empty = 0; for (auto s : st.agg_size) if (!s) ++empty;
-    c.check(empty == 0, "partition:empty-aggregate:" + tag, "a coarse column (aggregate) has no fine unknown", J().n("empty", empty).n("aggregates", nagg));
-    return st;
-}
 
 //---------------------------------------------------------------------------
 // solve
@@ -187,13 +103,17 @@ static void sub_solve() {
 //---------------------------------------------------------------------------
 // pmis / coarsenings alone
 //---------------------------------------------------------------------------
-static void sub_pmis() {
-    World &w = world(); mpi::communicator comm(w.comm);
-    long N = vf::opt_int("pmis_cases", vf::tier(10, 120));
+// sub "pmis": block size 1 with 0..3 near-null-space vectors, or block size 2..3 without near-null space;
+// sub "pmis_bk": block size 2..3 together with 1..3 near-null-space vectors (kept apart: on this tree the column
+// numbering of that combination is wrong, the library then crashes and would take the other cases with it)
+static void sub_pmis(const std::string &sub) {
+    World &w = world(); mpi::communicator comm(w.comm); const bool bk = sub == "pmis_bk";
+    long N = bk ? vf::opt_int("pmis_bk_cases", vf::tier(6, 60)) : vf::opt_int("pmis_cases", vf::tier(10, 120));
     for (long idx = 0; idx < N; ++idx) {
-        if (!vf::selected("pmis", idx)) continue;
-        uint64_t cs = vf::case_seed("pmis", idx * 16 + w.size); Rng r(cs); vfm::seed_delays(cs, w.rank);
+        if (!vf::selected(sub, idx)) continue;
+        uint64_t cs = vf::case_seed(sub, idx * 16 + w.size); Rng r(cs); vfm::seed_delays(cs, w.rank);
         int b = idx % 3 == 2 ? (int)r.range(2, 3) : 1; int K = (int)r.range(0, 3); if (idx % 5 == 0) K = 0;
+        if (bk) { b = (int)r.range(2, 3); K = (int)r.range(1, 3); } else if (b > 1) K = 0;
         Problem p = make_problem(r, 40, idx % 4 == 0 ? 120 : 500);
         // isolate a few vertices (diagonal-only rows and columns)
         Csr<double> A0 = p.A; bool iso = r.coin(0.5); std::set<long> isolated;
@@ -202,24 +122,27 @@ static void sub_pmis() {
         Csr<double> G = b == 1 ? A0 : vf::kron(A0, r.coin() ? vf::identity_block(b) : vf::spd_block(b, r), b);
         long n = G.n; Part rp = vfm::random_part(n, w.size, r, b); double eps = r.coin(0.7) ? 0.08 : r.uni(0.02, 0.3);
         std::vector<double> Bf((size_t)n * K); for (long i = 0; i < n; ++i) for (int q = 0; q < K; ++q) Bf[i * K + q] = q == 0 ? 1.0 : r.uni(-1, 1);
-        Case c("pmis", idx, J().n("ranks", w.size).s("family", p.family).n("n", n).n("block_size", b).n("nullspace_cols", K).n("isolated", isolated.size()).n("eps_strong", eps).s("rows", vfm::part_str(rp)));
+        Case c(sub, idx, J().n("ranks", w.size).s("family", p.family).n("n", n).n("block_size", b).n("nullspace_cols", K).n("isolated", isolated.size()).n("eps_strong", eps).s("rows", vfm::part_str(rp)));
         Csr<double> S = vfm::slice_rows(G, rp[w.rank], rp[w.rank + 1]); size_t nloc = S.n; std::string tag = "b" + std::string(b > 1 ? ">1" : "=1") + ":K" + (K ? ">0" : "=0");
-        Bag bag(w.comm); std::vector<double> Bc_loc; long pcols = 0, pshift = 0; bool threw = false;
+        Bag bag(w.comm); std::vector<double> Bc_loc; long pcols = 0, pshift = 0; bool threw = false, malformed = false;
         try {
             DM A(comm, std::tie(nloc, S.ptr, S.col, S.val), nloc);
             mpi::coarsening::pmis<B>::params prm; prm.eps_strong = eps; prm.block_size = b; prm.nullspace.cols = K; prm.nullspace.B.assign(Bf.begin() + rp[w.rank] * K, Bf.begin() + rp[w.rank + 1] * K);
             mpi::coarsening::pmis<B> aggr(A, prm); auto &P = *aggr.p_tent;
             pcols = P.glob_cols(); pshift = P.loc_col_shift();
-            bag.add(1, w.rank, 0, vfm::dm_local_check(P, nloc, P.loc_cols(), pshift, pcols)); vfm::bag_dm(bag, 2, P, rp[w.rank]);
+            int perr = vfm::dm_local_check(P, nloc, P.loc_cols(), pshift, pcols), gperr = 0; MPI_Allreduce(&perr, &gperr, 1, MPI_INT, MPI_MAX, w.comm);
+            bag.add(1, w.rank, 0, perr); vfm::bag_dm(bag, 2, P, rp[w.rank]);
+            if (gperr) throw std::domain_error("malformed tentative prolongation");      // using it further (transpose, product) would run out of bounds
             if (K) { Bc_loc = prm.nullspace.B; bag.add(1, w.rank, 1, (long)Bc_loc.size() == (long)P.loc_cols() * K ? 0 : 100); for (long g = 0; g < (long)P.loc_cols() && (size_t)(g * K + K) <= Bc_loc.size(); ++g) bag.add(3, pshift + g, 0, &Bc_loc[g * K], K); }
             // both coarsenings alone, same parameters
             for (int which = 0; which < 2; ++which) { std::shared_ptr<DM> Pm, Rm, Ac; double s = 1;
                 std::vector<double> Bl(Bf.begin() + rp[w.rank] * K, Bf.begin() + rp[w.rank + 1] * K);
                 if (which == 0) { mpi::coarsening::aggregation<B>::params cp; cp.aggr.eps_strong = eps; cp.aggr.block_size = b; cp.aggr.nullspace.cols = K; cp.aggr.nullspace.B = Bl; mpi::coarsening::aggregation<B> C(cp); std::tie(Pm, Rm) = C.transfer_operators(A); Ac = C.coarse_operator(A, *Pm, *Rm); s = (double)(1 / cp.over_interp); }
                 else { mpi::coarsening::smoothed_aggregation<B>::params cp; cp.aggr.eps_strong = eps; cp.aggr.block_size = b; cp.aggr.nullspace.cols = K; cp.aggr.nullspace.B = Bl; mpi::coarsening::smoothed_aggregation<B> C(cp); std::tie(Pm, Rm) = C.transfer_operators(A); Ac = C.coarse_operator(A, *Pm, *Rm); }
-                bag.add(10 + which, 0, 0, (double)Pm->glob_cols()); bag.add(10 + which, 1, 0, s);
+                if (w.rank == 0) { bag.add(10 + which, 0, 0, (double)Pm->glob_cols()); bag.add(10 + which, 1, 0, s); }
                 vfm::bag_dm(bag, 20 + which, *Pm, rp[w.rank]); vfm::bag_dm(bag, 30 + which, *Rm, Pm->loc_col_shift()); vfm::bag_dm(bag, 40 + which, *Ac, Ac->loc_col_shift()); }
-        } catch (const std::exception &e) { threw = true; c.fail("exception:pmis:" + tag, e.what()); }
+        } catch (const std::domain_error &) { malformed = true; }
+        catch (const std::exception &e) { threw = true; c.fail("exception:pmis:" + tag, e.what()); }
         bag.collect(); if (w.rank || threw) continue;
         for (auto rec : bag.with(1)) c.check((int)rec->v[0] == 0, rec->j == 0 ? std::string("pmis:malformed:") + vfm::dm_err((int)rec->v[0] % 100) : "pmis:coarse-nullspace-size", "rank-local structural monitor of the tentative prolongation failed", J().n("rank", rec->i).n("code", rec->v[0]));
         GMat gp = bag_to_csr(bag, 2, n, pcols); c.check(gp.dups + gp.range == 0, "pmis:duplicate-or-out-of-range-entry:" + tag, "gathered tentative prolongation has duplicate or out-of-range entries");
@@ -236,7 +159,7 @@ static void sub_pmis() {
                     long double bound = 100.0L * (rows_in[a] + K) * K * 1.1102230246251565e-16L * sqrtl(fro[a]), d = fabsl(s - Bf[i * K + q]); if (!(d <= bound)) ok = false; worst = std::max(worst, (double)(d / sqrtl(fro[a]))); ++checked; } }
             c.check(ok, "nullspace:not-reproduced:" + tag, "P_tent * B_coarse differs from the fine near-null-space vectors beyond the QR backward error bound", J().n("worst_rel", worst).n("block_size", b).n("nullspace_cols", K));
             vf::obs_max("max_rel_nullspace_discrepancy", worst); vf::obs_sum("nullspace_entries_checked", (double)checked); vf::obs_sum("nullspace_rows_in_small_aggregates", (double)small); }
-        for (int which = 0; which < 2; ++which) { auto sc = bag.with(10 + which); if (sc.size() != 2) { c.fail("harness:pmis-scalars", "missing"); continue; } long nc = (long)sc[0]->v[0]; double s = sc[1]->v[0]; std::string ct = std::string(COARS[which]) + ":alone:" + tag;
+        for (int which = 0; which < 2 && !malformed; ++which) { auto sc = bag.with(10 + which); if (sc.size() != 2) { c.fail("harness:pmis-scalars", "missing"); continue; } long nc = (long)sc[0]->v[0]; double s = sc[1]->v[0]; std::string ct = std::string(COARS[which]) + ":alone:" + tag;
             GMat P = bag_to_csr(bag, 20 + which, n, nc), R = bag_to_csr(bag, 30 + which, nc, n), Ac = bag_to_csr(bag, 40 + which, nc, nc);
             c.check(P.dups + P.range + R.dups + R.range + Ac.dups + Ac.range == 0, "hierarchy:duplicate-or-out-of-range-entry:" + ct, "a gathered matrix has duplicate or out-of-range entries");
             check_transpose(c, ct, P.M, R.M); check_galerkin(c, ct, G, P.M, R.M, Ac.M, s); }
@@ -288,7 +211,8 @@ int main(int argc, char **argv) {
     if (vf::opt_int("delays", 1)) vfm::install_delay_hook();
     vf::obs_add("rank_counts_seen", std::to_string(world().size));
     if (vf::sub_enabled("solve")) sub_solve();
-    if (vf::sub_enabled("pmis")) sub_pmis();
+    if (vf::sub_enabled("pmis")) sub_pmis("pmis");
+    if (vf::sub_enabled("pmis_bk")) sub_pmis("pmis_bk");
     if (vf::sub_enabled("direct")) sub_direct();
     if (world().rank == 0) { vf::obs_sum("delay_hook_calls", (double)vfm::delay_state().calls); vf::obs_sum("delays_injected", (double)vfm::delay_state().slept); }
     return vf::finish();
